@@ -151,7 +151,7 @@ Qed.
 (* the statement: members have the shapes of a tree without repetitions (no upper-bounded ranges), and every expansion is covered *)
 Definition shape_members (b : bterm) : Prop := Forall (fun m => shape (snd m)) (members b).
 
-Definition S (t : tok) : Prop :=
+Definition Covered (t : tok) : Prop :=
   (forall r, exh_fold t = Ok r -> r <> None) /\
   forall b, exh_fold t = Ok (Some b) ->
     shape_members b /\ forall x, Expands t x -> exists m, In m (members b) /\ (vform (snd m) -> has_ft x).
@@ -209,7 +209,7 @@ Fixpoint abl_free_t (l : list tok) : Prop :=
   end.
 
 Lemma fold_covered : forall R ys bs, Forall2 Expands R ys -> Forall2 (fun t b => exh_fold t = Ok (Some b)) R bs ->
-  Forall (fun t => S t /\ rep_free t = true) R -> abl_free_t R ->
+  Forall (fun t => Covered t /\ rep_free t = true) R -> abl_free_t R ->
   forall acc Y sa c, shape_members acc -> In sa (members acc) -> (vform (snd sa) -> has_ft Y) -> (R <> [] -> forallb szt Y = true) ->
   rfold bterm_conj acc bs = Ok c ->
   shape_members c /\ exists sc, In sc (members c) /\ (vform (snd sc) -> has_ft (concat (rev ys) ++ Y)).
@@ -245,7 +245,7 @@ Proof.
   destruct (rmapM snd (map (fun t => (t, exh_fold t)) R)) as [xs|] eqn:Er; [|discriminate]. cbn [rbind] in H. inversion H; subst. constructor; [exact E|apply IH; reflexivity].
 Qed.
 
-Lemma forall2_somes : forall (R : list tok) terms0, Forall2 (fun t r => exh_fold t = Ok r) R terms0 -> Forall (fun t => S t) R ->
+Lemma forall2_somes : forall (R : list tok) terms0, Forall2 (fun t r => exh_fold t = Ok r) R terms0 -> Forall (fun t => Covered t) R ->
   exists bs, terms0 = map Some bs /\ Forall2 (fun t b => exh_fold t = Ok (Some b)) R bs.
 Proof.
   intros R terms0 H. induction H as [|t r R terms Ht _ IH]; intros HS; [exists []; split; [reflexivity|constructor]|].
@@ -259,7 +259,7 @@ Proof. induction l as [|a l IH]; [reflexivity|]. cbn [map flat_map opt_list app]
 Lemma zero_shape : shape_members bterm_zero.
 Proof. constructor; [exact I|constructor]. Qed.
 
-Lemma leaf_S : forall sp l, S (TLeaf sp l).
+Lemma leaf_S : forall sp l, Covered (TLeaf sp l).
 Proof.
   intros sp l. split; [intros r H; cbn in H; inversion H; discriminate|]. intros b H. cbn in H. inversion H; subst. rewrite depth_leaf_sterm. split.
   - constructor; [destruct l; exact I|constructor].
@@ -282,13 +282,13 @@ Qed.
 Lemma forall2_rev : forall {A B} (R : A -> B -> Prop) l l', Forall2 R l l' -> Forall2 R (rev l) (rev l').
 Proof. intros A B R l l' H. induction H as [|x y l l' Hxy _ IH]; [constructor|]. cbn [rev]. apply Forall2_app; [exact IH|constructor; [exact Hxy|constructor]]. Qed.
 
-Theorem rep_free_S : forall t, shp t = true -> nonempty_branches t = true -> S t.
+Theorem rep_free_S : forall t, shp t = true -> nonempty_branches t = true -> Covered t.
 Proof.
   induction t as [sp l|sp bs IH|sp ts IH|sp b lo hi IH] using tok_ind'; intros Hs Hn; try discriminate.
   - apply leaf_S.
   - (* alternation: every branch is taken; the term is the disjunction of the branch terms *)
     cbn [shp nonempty_branches] in Hs, Hn. apply andb_prop in Hn. destruct Hn as [Hnil Hn].
-    assert (HSb : Forall (fun b => S b) bs).
+    assert (HSb : Forall (fun b => Covered b) bs).
     { apply Forall_forall. intros b Hb. rewrite Forall_forall in IH. rewrite forallb_forall in Hs, Hn. specialize (Hs b Hb). apply andb_prop in Hs. exact (IH b Hb (proj2 Hs) (Hn b Hb)). }
     assert (Hbr : Forall (fun x : tok * res (option bterm) => is_branch (fst x) = true) (rev (combine bs (map exh_fold bs)))).
     { rewrite combine_map. apply Forall_forall. intros [t e] Hin. apply in_rev in Hin. apply in_map_iff in Hin. destruct Hin as [t0 [E Ht0]]. inversion E; subst. cbn [fst].
@@ -298,7 +298,7 @@ Proof.
     { intros r Hr. cbn [exh_fold] in Hr. rewrite (take_exh_alt _ Hbr) in Hr. rewrite combine_map, <- map_rev in Hr.
       destruct (rmapM snd (map (fun t => (t, exh_fold t)) (rev bs))) as [terms0|] eqn:Em; [|discriminate]. cbn [rbind] in Hr.
       pose proof (rmapM_snd_map _ _ Em) as HF.
-      assert (HSr : Forall (fun b => S b) (rev bs)) by (apply Forall_forall; intros b Hb; rewrite Forall_forall in HSb; apply HSb; apply in_rev; exact Hb).
+      assert (HSr : Forall (fun b => Covered b) (rev bs)) by (apply Forall_forall; intros b Hb; rewrite Forall_forall in HSb; apply HSb; apply in_rev; exact Hb).
       destruct (forall2_somes _ _ HF HSr) as [tbs [-> Htbs]]. rewrite flat_map_somes in Hr.
       destruct tbs as [|b1 tbs']. { inversion Htbs as [E1|]. destruct bs as [|b0 bs']; [discriminate|]. cbn [rev] in E1. destruct (rev bs'); discriminate. }
       cbn [rreduce] in Hr. destruct (rfold rdisj b1 tbs') as [c|] eqn:Ef; [|discriminate]. cbn [rmap rbind] in Hr.
@@ -324,7 +324,7 @@ Proof.
     + intros b Hb. destruct (Core _ Hb) as [b' [E [H1 H2]]]. inversion E; subst. auto.
   - (* concatenation: the taken suffix, conjoined in reverse *)
     cbn [shp nonempty_branches] in Hs, Hn. apply andb_prop in Hn. destruct Hn as [Hnil Hn].
-    assert (HSm : Forall (fun m => S m /\ rep_free m = true) ts).
+    assert (HSm : Forall (fun m => Covered m /\ rep_free m = true) ts).
     { apply Forall_forall. intros m Hm. rewrite Forall_forall in IH. rewrite forallb_forall in Hs, Hn. specialize (Hs m Hm). apply andb_prop in Hs. destruct Hs as [_ Hsm].
       split; [exact (IH m Hm Hsm (Hn m Hm))|apply shp_rep_free; exact Hsm]. }
     assert (Core : forall r, exh_fold (TCat sp ts) = Ok r -> exists b, r = Some b /\ shape_members b /\
@@ -336,9 +336,9 @@ Proof.
       rewrite <- ER in Hr, Habl. pose proof (abl_free_map R Habl) as HablT.
       destruct (rmapM snd (map g R)) as [terms0|] eqn:Em; [|discriminate]. cbn [rbind] in Hr.
       pose proof (rmapM_snd_map _ _ Em) as HF.
-      assert (HSR : Forall (fun m => S m /\ rep_free m = true) R).
+      assert (HSR : Forall (fun m => Covered m /\ rep_free m = true) R).
       { apply Forall_forall. intros m Hm. rewrite Forall_forall in HSm. apply HSm. apply in_rev. rewrite Erev. apply in_or_app. left. exact Hm. }
-      assert (HSR1 : Forall (fun m => S m) R) by (eapply Forall_impl; [|exact HSR]; intros a [Ha _]; exact Ha).
+      assert (HSR1 : Forall (fun m => Covered m) R) by (eapply Forall_impl; [|exact HSR]; intros a [Ha _]; exact Ha).
       destruct (forall2_somes _ _ HF HSR1) as [tbs [-> Htbs]]. rewrite flat_map_somes in Hr.
       (* the result is the sum or zero *)
       assert (Hzero : exists b, Some bterm_zero = Some b /\ shape_members b /\
